@@ -78,6 +78,15 @@ def parse_args(ref_h):
     return out
 
 
+def parse_variants(ref_h):
+    """//VARIANT key : idx suffix -> extra harness entries for that wrapper whose parameter idx is made by
+    verif_make_/clone_/same_<suffix> (e.g. a base-class parameter that really is a derived object)"""
+    out = {}
+    for m in re.finditer(r'//VARIANT\s+(.*?)\s*:\s*(\d+)\s+(\w+)\s*$', open(ref_h).read(), flags=re.M):
+        out.setdefault(normkey(m.group(1)), []).append((int(m.group(2)), m.group(3)))
+    return out
+
+
 def normkey(k):
     return re.sub(r'\s*,\s*', ',', re.sub(r'\s+', ' ', k.strip()))
 
@@ -126,7 +135,7 @@ def ident(s):
     return re.sub(r'[^A-Za-z0-9_]', '_', s)
 
 
-def gen_harness(corpus, optname, wrappers, refs, strmax, argov={}):
+def gen_harness(corpus, optname, wrappers, refs, strmax, argov={}, variants={}):
     """returns (source text, entries list, skipped list, missing list)"""
     out = ['// generated by engine/c01check.py for corpus %s, options %s' % (corpus, optname),
            '#define C01_STRMAX %d' % strmax,
@@ -151,54 +160,61 @@ def gen_harness(corpus, optname, wrappers, refs, strmax, argov={}):
             continue
         rtype = cxx_type(w['return']) if w['has_return'] else 'void'
         ptypes = [cxx_type(p['type']) for p in w['params']]
-        ename = 'h_' + ident(w['name'])
         # the wrapper is declared with the signature the DATABASE records (a foreign-function client sees only this)
         out.append('extern "C" %s %s(%s);' % (rtype, w['name'], ', '.join(ptypes)))
-        body = ['extern "C" void %s() {' % ename, '  // %s' % key]
-        an, bn = [], []
-        for i, (cat, base) in enumerate(list(cats)):
-            T = ptypes[i]
-            if cat == 'objptr':
-                b = argov.get((key, i), ident(base))
-                cats[i] = (cat, base, b)
-                body.append('  %s *a%d = verif_make_%s(); %s *b%d = verif_clone_%s(a%d);' % (base, i, b, base, i, b, i))
-            elif cat == 'cstr':
-                body.append('  const char *a%d = verif_make_cstr(); const char *b%d = a%d;' % (i, i, i))
-            elif cat == 'enum':
-                body.append('  %s a%d = verif_make_%s(); %s b%d = a%d;' % (T, i, ident(base), T, i, i))
+        base_cats = cats
+        for vn, var in enumerate([None] + variants.get(key, [])):
+          cats = list(base_cats)
+          ov = dict(argov)
+          if var is not None:
+              ov[(key, var[0])] = var[1]
+          ename = 'h_' + ident(w['name']) + ('' if var is None else '_v%d' % vn)
+          body = ['extern "C" void %s() {' % ename, '  // %s%s' % (key, '' if var is None else ' variant: parameter %d is a %s' % var)]
+          if True:
+            an, bn = [], []
+            for i, (cat, base) in enumerate(list(cats)):
+                T = ptypes[i]
+                if cat == 'objptr':
+                    b = ov.get((key, i), ident(base))
+                    cats[i] = (cat, base, b)
+                    body.append('  %s *a%d = verif_make_%s(); %s *b%d = verif_clone_%s(a%d);' % (base, i, b, base, i, b, i))
+                elif cat == 'cstr':
+                    body.append('  const char *a%d = verif_make_cstr(); const char *b%d = a%d;' % (i, i, i))
+                elif cat == 'enum':
+                    body.append('  %s a%d = verif_make_%s(); %s b%d = a%d;' % (T, i, ident(base), T, i, i))
+                else:
+                    body.append('  %s a%d = Nd<%s>::get(); %s b%d = a%d;' % (T, i, T, T, i, i))
+                an.append('(%s)a%d' % (T, i))
+                bn.append('(%s)b%d' % (T, i))
+            call_w = '%s(%s)' % (w['name'], ', '.join(an))
+            call_r = '%s(%s)' % (refs[key], ', '.join(bn))
+            body.append('  g_trace = 0;')
+            if rcat[0] == 'void':
+                body.append('  %s; int tw = g_trace; g_trace = 0;' % call_w)
+                body.append('  %s; int tr = g_trace;' % call_r)
             else:
-                body.append('  %s a%d = Nd<%s>::get(); %s b%d = a%d;' % (T, i, T, T, i, i))
-            an.append('(%s)a%d' % (T, i))
-            bn.append('(%s)b%d' % (T, i))
-        call_w = '%s(%s)' % (w['name'], ', '.join(an))
-        call_r = '%s(%s)' % (refs[key], ', '.join(bn))
-        body.append('  g_trace = 0;')
-        if rcat[0] == 'void':
-            body.append('  %s; int tw = g_trace; g_trace = 0;' % call_w)
-            body.append('  %s; int tr = g_trace;' % call_r)
-        else:
-            body.append('  %s rw = %s; int tw = g_trace; g_trace = 0;' % (rtype, call_w))
-            body.append('  %s rr = %s; int tr = g_trace;' % (rtype, call_r))
-        body.append('  ASSERT(tw == tr, "C01 wrapper reaches the overload/default variant the database names (trace cell)");')
-        if rcat[0] == 'objptr':
-            b = ident(rcat[1])
-            body.append('  ASSERT((rw == 0) == (rr == 0), "C01 wrapper result null-ness equals the direct call");')
-            alias = ' || '.join(['((const void *)rw == (const void *)a%d)' % i for i, c in enumerate(cats) if c[0] == 'objptr']) or 'false'
+                body.append('  %s rw = %s; int tw = g_trace; g_trace = 0;' % (rtype, call_w))
+                body.append('  %s rr = %s; int tr = g_trace;' % (rtype, call_r))
+            body.append('  ASSERT(tw == tr, "C01 wrapper reaches the overload/default variant the database names (trace cell)");')
+            if rcat[0] == 'objptr':
+                b = ident(rcat[1])
+                body.append('  ASSERT((rw == 0) == (rr == 0), "C01 wrapper result null-ness equals the direct call");')
+                alias = ' || '.join(['((const void *)rw == (const void *)a%d)' % i for i, c in enumerate(cats) if c[0] == 'objptr']) or 'false'
+                for i, c in enumerate(cats):
+                    if c[0] == 'objptr':
+                        body.append('  ASSERT(((const void *)rw == (const void *)a%d) == ((const void *)rr == (const void *)b%d), "C01 wrapper result aliases the same argument as the direct call");' % (i, i))
+                body.append('  ASSERT(rw == 0 || rr == 0 || verif_same_%s(rw, rr), "C01 wrapper result object equals the direct call result");' % b)
+            elif rcat[0] == 'cstr':
+                body.append('  ASSERT(verif_same_cstr(rw, rr), "C01 wrapper string result equals the direct call");')
+            elif rcat[0] in ('scalar', 'enum'):
+                body.append('  ASSERT(verif_same_scalar(rw, rr), "C01 wrapper return value equals the direct call");')
             for i, c in enumerate(cats):
                 if c[0] == 'objptr':
-                    body.append('  ASSERT(((const void *)rw == (const void *)a%d) == ((const void *)rr == (const void *)b%d), "C01 wrapper result aliases the same argument as the direct call");' % (i, i))
-            body.append('  ASSERT(rw == 0 || rr == 0 || verif_same_%s(rw, rr), "C01 wrapper result object equals the direct call result");' % b)
-        elif rcat[0] == 'cstr':
-            body.append('  ASSERT(verif_same_cstr(rw, rr), "C01 wrapper string result equals the direct call");')
-        elif rcat[0] in ('scalar', 'enum'):
-            body.append('  ASSERT(verif_same_scalar(rw, rr), "C01 wrapper return value equals the direct call");')
-        for i, c in enumerate(cats):
-            if c[0] == 'objptr':
-                body.append('  ASSERT(verif_same_%s(a%d, b%d), "C01 wrapper leaves argument objects in the same state as the direct call");' % (c[2], i, i))
-        body.append('  WITNESS();')
-        body.append('}')
-        out += body + ['']
-        entries.append(dict(entry=ename, wrapper=w['name'], key=key, function=w['function'], params=ptypes, ret=rtype))
+                    body.append('  ASSERT(verif_same_%s(a%d, b%d), "C01 wrapper leaves argument objects in the same state as the direct call");' % (c[2], i, i))
+            body.append('  WITNESS();')
+            body.append('}')
+            out += body + ['']
+            entries.append(dict(entry=ename, wrapper=w['name'], key=key, function=w['function'], params=ptypes, ret=rtype))
     unused = sorted(set(refs) - used_keys)
     return '\n'.join(out), entries, skipped, missing, unused
 
@@ -341,7 +357,7 @@ def main():
                 callable_w = [w for w in db['wrappers'] if w['callable_by_name']]
                 if '-nodb' in opts or not callable_w:
                     continue
-                src, entries, skipped, missing, unused = gen_harness(corpus, optname, callable_w, refs, strmax, parse_args(os.path.join(CORPUS, corpus + '.ref.h')))
+                src, entries, skipped, missing, unused = gen_harness(corpus, optname, callable_w, refs, strmax, parse_args(os.path.join(CORPUS, corpus + '.ref.h')), parse_variants(os.path.join(CORPUS, corpus + '.ref.h')))
                 hsrc = os.path.join(wd, 'harness_%s.cxx' % tag.replace('.', '_'))
                 open(hsrc, 'w').write(src)
                 for (wn, key) in missing:
